@@ -7,7 +7,7 @@
    fragment of the property; exactly_balanced_is_stable). *)
 From LedgerV Require Import Base.Prelude Base.Round Model.Amount Model.Xact Model.Journal
   Proofs.AmountProofs Proofs.XactProofs Proofs.JournalProofs Proofs.CompareProofs Proofs.GainLossProofs
-  Model.AmountText Proofs.AmountTextProofs Gen.SourceGuards.
+  Model.AmountText Proofs.AmountTextProofs Model.Subtotal Proofs.SubtotalProofs Gen.SourceGuards.
 From Coq Require Import Permutation.
 Local Open Scope Q_scope.
 
@@ -129,6 +129,29 @@ Theorem implied_rate_test_order_free : forall b b',
   Permutation b b' -> two_entries (VBal b) = two_entries (VBal b').
 Proof. exact two_entries_perm. Qed.
 Print Assumptions implied_rate_test_order_free.
+
+(* aggregated registers: the date of a subtotal row (reg --subtotal, --by-payee, --dow: subtotal_posts::report_subtotal)
+   is the earliest date of the postings gathered for it, its label shows the latest - in whatever order the postings
+   arrive (Model/Subtotal.v transcribes the loop; the correspondence compares both dates of every group with ledger's rows) *)
+Theorem subtotal_row_dates_are_earliest_and_latest : forall d ds,
+  exists s f, date_range (d :: ds) = Some (s, f) /\ bounds s f (d :: ds).
+Proof. exact date_range_is_min_max. Qed.
+Print Assumptions subtotal_row_dates_are_earliest_and_latest.
+
+Theorem subtotal_row_dates_order_free : forall ds ds', Permutation ds ds' -> date_range ds = date_range ds'.
+Proof. exact date_range_order_free. Qed.
+Print Assumptions subtotal_row_dates_order_free.
+
+Theorem group_row_dates_order_free : forall label ps ps',
+  Permutation ps ps' -> group_range label ps = group_range label ps'.
+Proof. exact group_range_order_free. Qed.
+Print Assumptions group_row_dates_order_free.
+
+Example ex_subtotal_dates :
+  (date_range [20210105; 20210310; 20210215] = Some (20210105, 20210310) /\
+   date_range [20210310; 20210105; 20210215] = Some (20210105, 20210310) /\
+   date_range [] = None)%Z.
+Proof. exact range_examples. Qed.
 
 (* the tie to the source by translation: the lines of /repo/src this model transcribes (harness/translators/src_guards.py
    lists them, with the function each is looked for in) are still there, in the same order, in the source as it is NOW -
